@@ -34,6 +34,11 @@ pub(crate) mod gate {
     /// completes before the spawning thread continues) instead of being queued
     pub(crate) static RUN_NOW: Mutex<std::collections::VecDeque<bool>> =
         Mutex::new(std::collections::VecDeque::new());
+    /// With the gate closed: for each successive spawn, queued tasks that complete right after
+    /// the spawn, i.e. while the spawning handler is still running (after the new task if that one
+    /// runs at once)
+    pub(crate) static AFTER_SPAWN: Mutex<std::collections::VecDeque<Vec<usize>>> =
+        Mutex::new(std::collections::VecDeque::new());
     pub(crate) static QUEUE: Mutex<Vec<Option<Task>>> = Mutex::new(Vec::new());
     pub(crate) static HANDLES: Mutex<Vec<JoinHandle<()>>> = Mutex::new(Vec::new());
 
@@ -50,6 +55,10 @@ pub(crate) mod gate {
                 f();
             } else {
                 QUEUE.lock().unwrap().push(Some(Box::new(f)));
+            }
+            let then = AFTER_SPAWN.lock().unwrap().pop_front().unwrap_or_default();
+            for i in then {
+                run(i);
             }
         } else {
             HANDLES.lock().unwrap().push(std::thread::spawn(f));
@@ -83,6 +92,7 @@ pub(crate) mod gate {
     pub(crate) fn reset() {
         QUEUE.lock().unwrap().clear();
         RUN_NOW.lock().unwrap().clear();
+        AFTER_SPAWN.lock().unwrap().clear();
     }
 
     pub(crate) fn join_all() {
@@ -211,6 +221,16 @@ pub(crate) fn run() -> Result<(), Box<dyn std::error::Error>> {
                 if let Some(a) = cmd["run_now"].as_array() {
                     *gate::RUN_NOW.lock().unwrap() =
                         a.iter().map(|b| b.as_bool().unwrap_or(false)).collect();
+                }
+                if let Some(a) = cmd["after_spawn"].as_array() {
+                    *gate::AFTER_SPAWN.lock().unwrap() = a
+                        .iter()
+                        .map(|l| {
+                            l.as_array()
+                                .map(|l| l.iter().filter_map(|i| i.as_u64()).map(|i| i as usize).collect())
+                                .unwrap_or_default()
+                        })
+                        .collect();
                 }
                 json!({"ok": true})
             }
